@@ -339,3 +339,103 @@ func surveyCodec(p *Program) {
 		fmt.Printf("CODEC %s / %s: encoder reads %v; decoder writes %v all=%v; MISSING %v\n", fname(cp.enc), cp.dec.Name(), keysOf(e.reads), keysOf(d.write), d.all, miss)
 	}
 }
+
+// ctorRule: every function of the package that builds and returns a fresh object of the named type
+// assigns all the fields that the consumer method reads (a constructor that forgets a cached value
+// hands out an object that silently computes with zero).
+func (c *Ctx) ctorRule(p *Program, rule, pkg, typ, consumer string) {
+	cons := p.Func(pkg, typ, consumer)
+	what := fmt.Sprintf("%s.%s: every constructor assigns the fields %s reads", pkg, typ, consumer)
+	if cons == nil {
+		c.undecided(rule, what, "consumer method does not resolve", "")
+		return
+	}
+	need := fieldsUsed(p, cons, 0).reads
+	path := circlPath + "/" + pkg
+	var fs []*ssa.Function
+	for f := range p.AllFuncs {
+		if f.Blocks != nil && funcPkgPath(f) == path && sourceFunc(f) && f.Parent() == nil {
+			fs = append(fs, f)
+		}
+	}
+	sort.Slice(fs, func(i, j int) bool { return fs[i].String() < fs[j].String() })
+	n := 0
+	for _, f := range fs {
+		// fresh objects of the type that f returns
+		allocs := map[*ssa.Alloc]bool{}
+		for _, b := range f.Blocks {
+			ret, ok := b.Instrs[len(b.Instrs)-1].(*ssa.Return)
+			if !ok {
+				continue
+			}
+			for _, r := range ret.Results {
+				v := r
+				if mi, ok := v.(*ssa.MakeInterface); ok {
+					v = mi.X
+				}
+				a, ok := v.(*ssa.Alloc)
+				if !ok {
+					continue
+				}
+				if nt, ok := a.Type().(*types.Pointer).Elem().(*types.Named); ok && nt.Obj().Name() == typ && nt.Obj().Pkg() != nil && nt.Obj().Pkg().Path() == path {
+					allocs[a] = true
+				}
+			}
+		}
+		for a := range allocs {
+			n++
+			written := map[string]bool{}
+			u := &fieldUse{p: p, reads: map[string]bool{}, write: map[string]bool{}, seen: map[string]bool{}}
+			whole := false
+			for _, r := range *a.Referrers() {
+				switch x := r.(type) {
+				case *ssa.FieldAddr:
+					if _, wr := u.classify(f, x, 0); wr {
+						written[fieldName(x)] = true
+					}
+				case *ssa.Store:
+					if x.Addr == ssa.Value(a) {
+						whole = true
+					}
+				case ssa.CallInstruction:
+					// the object is handed to a callee (a decoder, a deriving helper) that fills it
+					c0 := x.Common()
+					var args []ssa.Value
+					if c0.IsInvoke() {
+						args = append(args, c0.Value)
+					}
+					args = append(args, c0.Args...)
+					for j, arg := range args {
+						if arg == ssa.Value(a) {
+							if cal := c0.StaticCallee(); cal != nil && cal.Blocks != nil {
+								fu := fieldsUsed(p, cal, j)
+								for k := range fu.write {
+									written[k] = true
+								}
+								if fu.all {
+									whole = true
+								}
+							}
+						}
+					}
+				}
+			}
+			var miss []string
+			for k := range need {
+				if !written[k] && !whole {
+					miss = append(miss, k)
+				}
+			}
+			sort.Strings(miss)
+			construct := fmt.Sprintf("%s: the %s it returns has every field assigned that %s reads", fname(f), typ, consumer)
+			if len(miss) > 0 {
+				c.bad(rule, construct, fmt.Sprintf("field(s) %v are read by %s and left at their zero value by this constructor (assigned: %v)", miss, consumer, keysOf(written)), p.fnPos(f))
+			} else {
+				c.ok(rule, construct, fmt.Sprintf("reads %v, assigned %v", keysOf(need), keysOf(written)), p.fnPos(f))
+			}
+		}
+	}
+	if n == 0 {
+		c.undecided(rule, what, "no function of the package returns a fresh object of the type", "")
+	}
+}
